@@ -25,6 +25,9 @@ pub enum QOp {
     Drop(u16),
     /// let the wrapped sink finish the metric it holds, with this outcome
     Step(StepOut),
+    /// flush() on a live handle; the outcome is what the wrapped sink would answer
+    /// if it were (wrongly) invoked on the caller's thread during that call
+    Flush(u16, StepOut),
 }
 
 #[derive(Serialize, Deserialize, Clone, Debug)]
@@ -564,6 +567,74 @@ pub fn run_case(case: &QueueCase, ctx: &Ctx) -> Run {
                     check_counters!(oi);
                 }
             }
+            QOp::Flush(sel, caller_out) => {
+                if !live.is_empty() {
+                    let h = live[util::pick_idx(sel, live.len())];
+                    let before = gate.lock().entered;
+                    gate.lock().caller_outcome = Some(caller_out);
+                    let r = actor.call(Cmd::Flush(h), w);
+                    gate.lock().caller_outcome = None;
+                    match r {
+                        Ok(Reply::Flushed(_)) => {}
+                        Ok(Reply::Panicked(p)) => {
+                            find!([QRule::Isolation, QRule::Panic], oi, "flush panicked in the caller: {}", p);
+                            fatal = true;
+                        }
+                        Err(e) if e == "timeout" => {
+                            find!([QRule::Isolation], oi, "flush did not return within {:?} while the wrapped sink is held blocked", w);
+                            fatal = true;
+                        }
+                        other => {
+                            find!([QRule::Isolation], oi, "flush: unexpected {:?}", other);
+                            fatal = true;
+                        }
+                    }
+                    // the wrapped sink's emit must not have been run by the flush (on the caller's thread)
+                    let g = gate.lock();
+                    let ran: Vec<(usize, String, bool)> = g
+                        .log
+                        .iter()
+                        .filter_map(|e| match e {
+                            Ev::Enter { seq, metric, on_producer, .. } if *seq >= before && *seq >= entered => Some((*seq, metric.clone(), *on_producer)),
+                            _ => None,
+                        })
+                        .collect();
+                    let handler_tokens: Vec<Option<u64>> = g
+                        .log
+                        .iter()
+                        .filter_map(|e| match e {
+                            Ev::Handler { token, .. } => Some(*token),
+                            _ => None,
+                        })
+                        .collect();
+                    drop(g);
+                    if let Some((seq, metric, on_prod)) = ran.first().cloned() {
+                        if on_prod {
+                            find!(
+                                [QRule::Isolation, QRule::Deliver],
+                                oi,
+                                "flush() ran the wrapped sink's emit for queued metric '{}' on the caller's thread (while the worker holds another metric: hand-over is neither one at a time nor on the background thread)",
+                                metric
+                            );
+                            if let (StepOut::Err(_), true) = (caller_out, case.handler) {
+                                if !handler_tokens.contains(&Some(seq as u64)) {
+                                    find!(
+                                        [QRule::Handler],
+                                        oi,
+                                        "the wrapped sink returned an error for queued metric '{}' (processed inside flush()) but the configured error handler was not invoked with it",
+                                        metric
+                                    );
+                                }
+                            }
+                            fatal = true;
+                        }
+                    }
+                    if !fatal {
+                        settle!(oi);
+                        check_counters!(oi);
+                    }
+                }
+            }
             QOp::Step(out) => {
                 if let Some(m) = inhand.clone() {
                     st.steps += 1;
@@ -761,6 +832,7 @@ pub fn cap_strategy() -> impl Strategy<Value = Option<usize>> {
 
 #[derive(Clone, Copy, Debug)]
 pub struct QGen {
+    pub flush_w: u32,
     pub max_ops: usize,
     pub emit_w: u32,
     pub clone_w: u32,
@@ -777,6 +849,7 @@ pub fn queue_case(g: QGen) -> BoxedStrategy<QueueCase> {
         g.clone_w => any::<u16>().prop_map(QOp::Clone),
         g.drop_w => any::<u16>().prop_map(QOp::Drop),
         g.step_w => step_out(g.err_w, g.panic_w).prop_map(QOp::Step),
+        g.flush_w => (any::<u16>(), prop_oneof![Just(StepOut::Ok), (0u8..12).prop_map(StepOut::Err)]).prop_map(|(h, o)| QOp::Flush(h, o)),
     ];
     (cap_strategy(), prop::bool::weighted(g.handler_p), prop::collection::vec(op, 0..=g.max_ops))
         .prop_map(|(cap, handler, ops)| QueueCase { cap, handler, ops })
